@@ -5,6 +5,19 @@ MC_Items    == {"rho.A", "rho.B", "d.A", "d.B", "pot.AA", "pot.AB", "pot.BB", "c
 MC_Optional == {"kT", "sig.AB"}
 MC_Resets(i) == IF i \in {"d.A", "d.B"} THEN {"sig.AB"} ELSE {}
 MC_Needs(i)  == IF i = "sig.AB" THEN {"d.A", "d.B"} ELSE {}
+MC_Versions(i) == IF i = "d.B" THEN {1, 2, 3} ELSE {1, 2}
+\* lengths in units of 1/160: diameters 1.0, 1.25, 1.1; grid spacings 0.125, 0.0625 (256 resp. 512 points: every length used
+\* lies inside the grid); the contact distance override adds 0.125
+D160(v)  == CASE v = 1 -> 160 [] v = 2 -> 200 [] v = 3 -> 176
+Dr160(v) == IF v = 1 THEN 20 ELSE 10
+MC_Warnings(c) ==
+    LET dr  == Dr160(c["domain"])
+        dA  == D160(c["d.A"])
+        dB  == D160(c["d.B"])
+        sAB == ((dA + dB) \div 2) + (IF c["sig.AB"] = 2 THEN 20 ELSE 0)
+        Off(x) == x % dr # 0
+    IN  (IF Off(dA) THEN {"d.A", "s.AA"} ELSE {}) \cup (IF Off(dB) THEN {"d.B", "s.BB"} ELSE {})
+        \cup (IF Off(sAB) THEN {"s.AB"} ELSE {})
 \* completeness machine: only unset items are assigned
 FillNext == \/ \E i \in Items : cfg[i] = 0 /\ Edit(i, 1)
             \/ Edit("sig.AB", 2)
